@@ -374,9 +374,30 @@ def rule_invalid_arg_guards(eng, rep, ctx):
                 cook = all(any(b.op == cop and isinstance(b.lhs, ast.Name) and b.lhs.id == cname for b in gs) for (cop, cname) in co)
                 if not cook:
                     continue
+                # the error at this site must be attributable to this predicate: no OTHER atom of its guard list is itself the error predicate of a different row
+                # (`elif lh is not None: error .. elif lh <= 0: error` -- the second site is reached under `lh is None` but reports `lh <= 0`, not the missing constant)
+                def _is_other_rows_predicate(b):
+                    for (rid2, op2, lhs2, rhs2, _co2, _r2) in tables.INVALID_ARG_ROWS:
+                        if rid2 != rid and b.op == op2 and _side_matches(b.lhs, lhs2) and _side_matches(b.rhs, rhs2):
+                            return True
+                    return False
+                if a.op == op and any(b is not a and _is_other_rows_predicate(b) for b in gs):
+                    continue
                 subject_hits.append((s, a))
                 if a.op == op:
                     exact_hits.append((s, a))
+        inverted = []
+        if op == "is" and not exact_hits:
+            for s, gs in site_guards.items():
+                if gs and gs[0].op == "isnot" and _side_matches(gs[0].lhs, lhs) and _side_matches(gs[0].rhs, rhs) \
+                        and all(any(b.op == cop and isinstance(b.lhs, ast.Name) and b.lhs.id == cname for b in gs) for (cop, cname) in co):
+                    inverted.append((s, gs[0]))       # (the site's own, innermost guard comes first)
+        if inverted and not exact_hits:
+            for (s, a) in inverted:
+                classified.add(s)
+            rep.bad(rule, eng.where(solve, A(inverted[0][0])), "solver.solve|inverted-guard|%s" % rid,
+                    "the input error for the documented class `%s` (%s) is raised under `%r`, the opposite of the class: the invalid argument is accepted and the valid one refused" % (rid, reason, inverted[0][1]))
+            continue
         if exact_hits:
             for (s, a) in exact_hits:
                 classified.add(s)
